@@ -126,6 +126,10 @@ pub struct SimCfg {
     pub drain_streams: bool,
     /// at every quiescent point of the run check that a sweep changes nothing (C16)
     pub check_sweep_noop: bool,
+    /// per-call cap of the mock reader (0 = none)
+    pub read_cap: u16,
+    /// the mock reader returns Pending once (self-waking) before each delivery
+    pub read_yield: bool,
 }
 
 impl Default for SimCfg {
@@ -137,6 +141,8 @@ impl Default for SimCfg {
             write: WritePlan::default(),
             drain_streams: false,
             check_sweep_noop: false,
+            read_cap: 0,
+            read_yield: false,
         }
     }
 }
@@ -1057,6 +1063,7 @@ impl<'a> Sim<'a> {
                         if *settle_between {
                             self.settle();
                             self.on_completions();
+                            self.check_quiescent();
                         }
                     }
                 }
@@ -1624,6 +1631,11 @@ pub fn run(scn: &Scenario, cfg: &SimCfg) -> SimOut {
         return SimOut { failures, stats: Stats::default(), proj: Projections::default() };
     }
     cfg.write.install(&w);
+    {
+        let mut r = w.reader.0.borrow_mut();
+        r.cap = cfg.read_cap as usize;
+        r.yield_first = cfg.read_yield;
+    }
     let mut tr = Tracker::new();
     tr.skip_existing(&mut w);
     let mut sim = Sim {
